@@ -107,6 +107,12 @@ var (
 	}}
 )
 
+// idCache remembers, per reader, the _id read from the stored fields of a
+// document number (a reader is an immutable snapshot, so the mapping is a
+// function of the reader; it is read through the hit the first time a number
+// is delivered).
+var idCache = map[*bluge.Reader]map[uint64]string{}
+
 // runSearch executes the request and returns the _id of every hit in the
 // order delivered.  A panic inside bluge is returned as an error.
 func runSearch(r *bluge.Reader, req bluge.SearchRequest) (ids []string, err error) {
@@ -115,6 +121,11 @@ func runSearch(r *bluge.Reader, req bluge.SearchRequest) (ids []string, err erro
 			err = fmt.Errorf("PANIC: %v", p)
 		}
 	}()
+	cache := idCache[r]
+	if cache == nil {
+		cache = map[uint64]string{}
+		idCache[r] = cache
+	}
 	it, err := r.Search(context.Background(), req)
 	if err != nil {
 		return nil, err
@@ -127,16 +138,20 @@ func runSearch(r *bluge.Reader, req bluge.SearchRequest) (ids []string, err erro
 		if m == nil {
 			return ids, nil
 		}
-		id := "?"
-		err = m.VisitStoredFields(func(field string, value []byte) bool {
-			if field == "_id" {
-				id = string(value)
-				return false
+		id, ok := cache[m.Number]
+		if !ok {
+			id = "?"
+			err = m.VisitStoredFields(func(field string, value []byte) bool {
+				if field == "_id" {
+					id = string(value)
+					return false
+				}
+				return true
+			})
+			if err != nil {
+				return ids, fmt.Errorf("stored fields of hit %d: %v", m.Number, err)
 			}
-			return true
-		})
-		if err != nil {
-			return ids, fmt.Errorf("stored fields of hit %d: %v", m.Number, err)
+			cache[m.Number] = id
 		}
 		ids = append(ids, id)
 	}
@@ -210,7 +225,7 @@ func q(s string) string { return fmt.Sprintf("%q", s) }
 // therefore constructs the searcher once over a reader whose dictionary lookups
 // are counted; when the count exceeds preflightLimit it aborts the construction
 // and reports that, and the query is not executed for real.
-const preflightLimit = 200000
+const preflightLimit = 60000
 
 type tooManyLookups struct{}
 
